@@ -284,13 +284,76 @@ pub fn field_cases(reg: &Registry, cap: usize, seeds_per_entry: usize) -> Vec<RC
                 if o as usize + width as usize > len {
                     continue;
                 }
-                for kind in 0..mutate::KINDS {
+                // the relational values (KINDS..KINDS_EXT) for 16- and 32-bit fields, where sizes and offsets live
+                let kinds = if width == 2 || width == 4 { mutate::KINDS_EXT } else { mutate::KINDS };
+                for kind in 0..kinds {
                     // one-byte fields: byte order is irrelevant
                     if width == 1 && kind >= 2 && kind % 2 == 1 {
                         continue;
                     }
                     out.push(RCase::seeded(s.entry, &s.name, vec![Mut::Set { at: Pos::Abs(o), width, kind }]));
                 }
+            }
+        }
+    }
+    out
+}
+
+/// text formats: every line x every separated field x every text operation (see `Mut::Text`)
+pub fn text_field_cases(reg: &Registry, entries: &[(&str, &[u8])]) -> Vec<RCase> {
+    let mut out = vec![];
+    for s in &reg.seeds {
+        let Some((_, seps)) = entries.iter().find(|(e, _)| *e == s.entry) else { continue };
+        let lines: Vec<&[u8]> = s.bytes().split(|c| *c == b'\n').collect();
+        if lines.len() > 400 {
+            continue;
+        }
+        for (li, l) in lines.iter().enumerate() {
+            for op in 7..mutate::TEXT_OPS {
+                out.push(RCase::seeded(s.entry, &s.name, vec![Mut::Text { line: li as u16, col: 0, sep: seps[0], op }]));
+            }
+            for sep in seps.iter() {
+                let ncols = l.split(|c| c == sep).count();
+                if ncols < 2 && *sep != seps[0] {
+                    continue;
+                }
+                for col in 0..ncols.min(16) {
+                    for op in 0..7 {
+                        out.push(RCase::seeded(s.entry, &s.name, vec![Mut::Text { line: li as u16, col: col as u16, sep: *sep, op }]));
+                    }
+                }
+            }
+        }
+    }
+    out
+}
+
+/// leak probes over one block header: every offset x width {1,2,4} x field value, each repeated `reps` times
+pub fn header_leak_cases(entry: &str, note: &str, args: &[Vec<u8>], target: usize, header_at: usize, header_len: usize, reps: u32) -> Vec<RCase> {
+    let mut out = vec![];
+    for off in 0..header_len {
+        for width in [1usize, 2, 4] {
+            if off + width > header_len {
+                continue;
+            }
+            let kinds = if width == 1 { mutate::KINDS } else { mutate::KINDS_EXT };
+            for kind in 0..kinds {
+                if width == 1 && kind >= 2 && kind % 2 == 1 {
+                    continue;
+                }
+                let mut a = args.to_vec();
+                let at = header_at + off;
+                if at + width > a[target].len() {
+                    continue;
+                }
+                let nb = mutate::field_bytes(&a[target][at..at + width], width, kind);
+                if nb == a[target][at..at + width] {
+                    continue;
+                }
+                a[target][at..at + width].copy_from_slice(&nb);
+                let mut c = RCase::explicit(entry, note, a);
+                c.reps = reps;
+                out.push(c);
             }
         }
     }
